@@ -1,45 +1,316 @@
-//! C04..C09, C19 bounded parts: executable transcription of DESIGN.md section 8
-use crate::report::CheckResult;
+//! C04..C09, C19 bounded parts: executable transcription of DESIGN.md section 8, run against the real
+//! detector functions of solstat.
+//!
+//!   det.rs         detector table, guarded execution (catch_unwind), contract check, replay, dispatch
+//!   det_oracle.rs  `expected(det, source unit) -> {must, may}` (start offsets), built on oracle_gen::all_nodes
+//!   det_corpus.rs  corpora: payloads x position templates, declaration-level templates, version matrix
+//!   det_checks.rs  the checks c04, c05, c06, c07, c08, c09, c19
+//!
+//! Contract per (program, detector):   must  ⊆  { start(l) : l ∈ detector(program) }  ⊆  may
+//! A panic inside solstat is a C04 violation and makes the pair inconclusive for the other properties.
+use solang_parser::pt;
+use std::collections::{BTreeSet, HashSet};
+use std::sync::Mutex;
+
+#[path = "det_checks.rs"]
+pub mod checks;
+#[path = "det_corpus.rs"]
+pub mod corpus;
+#[path = "det_oracle.rs"]
+pub mod oracle;
+
+use solstat::analyzer::{optimizations as opt, qa, vulnerabilities as vuln};
+
+#[derive(Clone, Copy, PartialEq, Eq, PartialOrd, Ord, Debug, Hash)]
+pub enum Det {
+    AddressBalance,
+    AddressZero,
+    BoolEqualsBool,
+    AssignUpdateArrayValue,
+    CacheArrayLength,
+    IncrementDecrement,
+    MultipleRequire,
+    OptimalComparison,
+    ShiftMath,
+    SolidityKeccak256,
+    SolidityMath,
+    PayableFunction,
+    PrivateConstant,
+    PrivateVarsLeadingUnderscore,
+    PrivateFuncLeadingUnderscore,
+    ConstructorOrder,
+    UnsafeErc20Operation,
+    DivideBeforeMultiply,
+    FloatingPragma,
+    UnprotectedSelfdestruct,
+    ConstantVariables,
+    ImmutableVariables,
+    MemoryToCalldata,
+    Sstore,
+    SafeMathPre080,
+    SafeMathPost080,
+    StringErrors,
+    ShortRevertString,
+    PackStorageVariables,
+    PackStructVariables,
+}
+
+type DetFn = fn(pt::SourceUnit) -> HashSet<pt::Loc>;
+
+/// (detector, name as in solstat's pattern table, property that specifies it, the REAL function)
+pub const DETS: &[(Det, &str, &str, DetFn)] = &[
+    (Det::AddressBalance, "address_balance", "c05", opt::address_balance::address_balance_optimization),
+    (Det::AddressZero, "address_zero", "c05", opt::address_zero::address_zero_optimization),
+    (Det::BoolEqualsBool, "bool_equals_bool", "c05", opt::bool_equals_bool::bool_equals_bool_optimization),
+    (Det::AssignUpdateArrayValue, "assign_update_array_value", "c05", opt::assign_update_array_value::assign_update_array_optimization),
+    (Det::CacheArrayLength, "cache_array_length", "c05", opt::cache_array_length::cache_array_length_optimization),
+    (Det::IncrementDecrement, "increment_decrement", "c05", opt::increment_decrement::increment_decrement_optimization),
+    (Det::MultipleRequire, "multiple_require", "c05", opt::multiple_require::multiple_require_optimization),
+    (Det::OptimalComparison, "optimal_comparison", "c05", opt::optimal_comparison::optimal_comparison_optimization),
+    (Det::ShiftMath, "shift_math", "c05", opt::shift_math::shift_math_optimization),
+    (Det::SolidityKeccak256, "solidity_keccak256", "c05", opt::solidity_keccak256::solidity_keccak256_optimization),
+    (Det::SolidityMath, "solidity_math", "c05", opt::solidity_math::solidity_math_optimization),
+    (Det::PayableFunction, "payable_function", "c06", opt::payable_function::payable_function_optimization),
+    (Det::PrivateConstant, "private_constant", "c06", opt::private_constant::private_constant_optimization),
+    (Det::PrivateVarsLeadingUnderscore, "private_vars_leading_underscore", "c06", qa::private_vars_leading_underscore::private_vars_leading_underscore),
+    (Det::PrivateFuncLeadingUnderscore, "private_func_leading_underscore", "c06", qa::private_func_leading_underscore::private_func_leading_underscore),
+    (Det::ConstructorOrder, "constructor_order", "c06", qa::constructor_order::constructor_order_qa),
+    (Det::UnsafeErc20Operation, "unsafe_erc20_operation", "c07", vuln::unsafe_erc20_operation::unsafe_erc20_operation_vulnerability),
+    (Det::DivideBeforeMultiply, "divide_before_multiply", "c07", vuln::divide_before_multiply::divide_before_multiply_vulnerability),
+    (Det::FloatingPragma, "floating_pragma", "c07", vuln::floating_pragma::floating_pragma_vulnerability),
+    (Det::UnprotectedSelfdestruct, "unprotected_selfdestruct", "c07", vuln::unprotected_selfdestruct::unprotected_selfdestruct_vulnerability),
+    (Det::ConstantVariables, "constant_variables", "c08", opt::constant_variables::constant_variable_optimization),
+    (Det::ImmutableVariables, "immutable_variables", "c08", opt::immutable_variables::immutable_variables_optimization),
+    (Det::MemoryToCalldata, "memory_to_calldata", "c08", opt::memory_to_calldata::memory_to_calldata_optimization),
+    (Det::Sstore, "sstore", "c08", opt::sstore::sstore_optimization),
+    (Det::SafeMathPre080, "safe_math_pre_080", "c09", opt::safe_math::safe_math_pre_080_optimization),
+    (Det::SafeMathPost080, "safe_math_post_080", "c09", opt::safe_math::safe_math_post_080_optimization),
+    (Det::StringErrors, "string_errors", "c09", opt::string_errors::string_error_optimization),
+    (Det::ShortRevertString, "short_revert_string", "c09", opt::short_revert_string::short_revert_string_optimization),
+    (Det::PackStorageVariables, "pack_storage_variables", "c10", opt::pack_storage_variables::pack_storage_variables_optimization),
+    (Det::PackStructVariables, "pack_struct_variables", "c10", opt::pack_struct_variables::pack_struct_variables_optimization),
+];
+
+impl Det {
+    pub fn name(self) -> &'static str {
+        DETS.iter().find(|d| d.0 == self).unwrap().1
+    }
+    pub fn prop(self) -> &'static str {
+        DETS.iter().find(|d| d.0 == self).unwrap().2
+    }
+    pub fn real(self) -> DetFn {
+        DETS.iter().find(|d| d.0 == self).unwrap().3
+    }
+    pub fn from_name(n: &str) -> Option<Det> {
+        DETS.iter().find(|d| d.1 == n).map(|d| d.0)
+    }
+    pub fn of_prop(p: &str) -> Vec<Det> {
+        DETS.iter().filter(|d| d.2 == p).map(|d| d.0).collect()
+    }
+    pub fn all() -> Vec<Det> {
+        DETS.iter().map(|d| d.0).collect()
+    }
+}
+
+// ---------------------------------------------------------------------------------------------
+// guarded execution of the real code
+// ---------------------------------------------------------------------------------------------
+static LAST_PANIC: Mutex<String> = Mutex::new(String::new());
+
+/// silence the default "thread panicked" output and remember the last message
+pub fn install_panic_hook() {
+    std::panic::set_hook(Box::new(|info| {
+        let msg = if let Some(s) = info.payload().downcast_ref::<&str>() {
+            s.to_string()
+        } else if let Some(s) = info.payload().downcast_ref::<String>() {
+            s.clone()
+        } else {
+            "non-string panic payload".to_string()
+        };
+        let at = info.location().map(|l| format!(" at {}:{}", l.file(), l.line())).unwrap_or_default();
+        if let Ok(mut g) = LAST_PANIC.lock() {
+            *g = format!("{}{}", msg, at);
+        }
+    }));
+}
+
+/// short, stable class of a panic message
+pub fn panic_class(msg: &str) -> &'static str {
+    if msg.contains("on a `None` value") {
+        "unwrap-none"
+    } else if msg.contains("ParseIntError") || msg.contains("PosOverflow") || msg.contains("InvalidDigit") {
+        "number-parse"
+    } else if msg.contains("on an `Err` value") {
+        "unwrap-err"
+    } else if msg.contains("index out of bounds") || msg.contains("out of range") {
+        "index-out-of-bounds"
+    } else if msg.contains("overflow") {
+        "arithmetic-overflow"
+    } else if msg.contains("divide by zero") || msg.contains("remainder with a divisor of zero") {
+        "division-by-zero"
+    } else if msg.contains("not implemented") || msg.contains("unreachable") {
+        "unimplemented"
+    } else if msg.contains("is not a") || msg.contains("Node is not") || msg.contains("Could not") {
+        "expect-failed"
+    } else {
+        "other"
+    }
+}
+
+pub enum Run {
+    Ok(BTreeSet<usize>),
+    /// (class, full message)
+    Panic(&'static str, String),
+}
+
+pub fn run_real(d: Det, su: &pt::SourceUnit) -> Run {
+    let f = d.real();
+    let input = su.clone();
+    match std::panic::catch_unwind(std::panic::AssertUnwindSafe(move || f(input))) {
+        Ok(locs) => Run::Ok(locs.iter().map(oracle::st).collect()),
+        Err(_) => {
+            let msg = LAST_PANIC.lock().map(|g| g.clone()).unwrap_or_default();
+            Run::Panic(panic_class(&msg), msg)
+        }
+    }
+}
+
+pub struct Verdict {
+    pub expect: oracle::Expect,
+    pub reported: BTreeSet<usize>,
+    /// must \ reported
+    pub missed: Vec<usize>,
+    /// reported \ may
+    pub unexpected: Vec<usize>,
+    pub panic: Option<(&'static str, String)>,
+}
+
+impl Verdict {
+    pub fn holds(&self) -> bool {
+        self.panic.is_none() && self.missed.is_empty() && self.unexpected.is_empty()
+    }
+}
+
+/// the contract  must ⊆ reported ⊆ may  for one (program, detector)
+pub fn check_contract(d: Det, su: &pt::SourceUnit) -> Verdict {
+    let expect = oracle::expected(d, su);
+    match run_real(d, su) {
+        Run::Panic(c, m) => Verdict { expect, reported: BTreeSet::new(), missed: vec![], unexpected: vec![], panic: Some((c, m)) },
+        Run::Ok(reported) => {
+            let missed = expect.must.difference(&reported).cloned().collect();
+            let unexpected = reported.difference(&expect.may).cloned().collect();
+            Verdict { expect, reported, missed, unexpected, panic: None }
+        }
+    }
+}
+
+pub fn line_of(src: &str, off: usize) -> usize {
+    src.as_bytes().iter().take(off.min(src.len())).filter(|b| **b == b'\n').count() + 1
+}
+
+pub fn fmt_offsets(src: &str, s: &BTreeSet<usize>) -> String {
+    let v: Vec<String> = s.iter().map(|o| format!("{}(line {})", o, line_of(src, *o))).collect();
+    format!("[{}]", v.join(", "))
+}
+
+// ---------------------------------------------------------------------------------------------
+// replay:  vxn det-case <prop> <detector> @src:<text>      exit 1 iff the contract is violated
+// ---------------------------------------------------------------------------------------------
+pub fn replay(prop: &str, det_name: &str, src: &str) -> (bool, String) {
+    install_panic_hook();
+    let su = match solang_parser::parse(src, 0) {
+        Ok((su, _)) => su,
+        Err(e) => return (true, format!("source does not parse (outside the property's domain): {:?}", e)),
+    };
+    if prop == "c09" && det_name == "safe_math" {
+        return checks::replay_never_both(&su, src);
+    }
+    let d = match Det::from_name(det_name) {
+        Some(d) => d,
+        None => return (true, format!("unknown detector {}", det_name)),
+    };
+    match prop {
+        "c04" => match run_real(d, &su) {
+            Run::Ok(r) => (true, format!("{} returned normally: {}", det_name, fmt_offsets(src, &r))),
+            Run::Panic(c, m) => (false, format!("{} panicked ({}): {}", det_name, c, m)),
+        },
+        "c19" => checks::replay_c19(d, src),
+        _ => {
+            let v = check_contract(d, &su);
+            if let Some((c, m)) = &v.panic {
+                return (true, format!("{} panicked ({}): {} -- inconclusive for {} (this is a C04 violation)", det_name, c, m, prop));
+            }
+            let mut msg = format!(
+                "{}: reported {}  must {}  may {}",
+                det_name,
+                fmt_offsets(src, &v.reported),
+                fmt_offsets(src, &v.expect.must),
+                fmt_offsets(src, &v.expect.may)
+            );
+            for o in &v.missed {
+                msg.push_str(&format!("\n  MISSED   offset {} line {}: {}", o, line_of(src, *o), oracle::describe_offset(&su, *o, Some(d))));
+            }
+            for o in &v.unexpected {
+                msg.push_str(&format!("\n  UNEXPECTED offset {} line {}: {}", o, line_of(src, *o), oracle::describe_offset(&su, *o, Some(d))));
+            }
+            (v.holds(), msg)
+        }
+    }
+}
+
+fn emit(r: crate::report::CheckResult) -> Option<i32> {
+    println!("{}", r.to_json().render());
+    Some(0)
+}
+
+/// run `f` on a thread with a large stack (the harness' own recursion over deep trees must not be the limit)
+fn big_stack<T: Send + 'static>(f: impl FnOnce() -> T + Send + 'static) -> T {
+    std::thread::Builder::new().stack_size(256 << 20).spawn(f).expect("spawn").join().expect("harness thread died")
+}
 
 /// Returns Some(exit code) when `cmd` belongs to this module.
 pub fn dispatch(cmd: &str, rest: &[String], tier: &str, seed: u64) -> Option<i32> {
-    let _ = (rest, tier, seed);
+    let tier = tier.to_string();
     match cmd {
-        "c04" => {
-            println!("{}", todo("c04").to_json().render());
+        "c04" => emit(big_stack(move || checks::run_c04(&tier, seed))),
+        "c05" => emit(big_stack(move || checks::run_expr_level("c05", &tier, seed))),
+        "c06" => emit(big_stack(move || checks::run_decl_level("c06", &tier, seed))),
+        "c07" => emit(big_stack(move || checks::run_decl_level("c07", &tier, seed))),
+        "c08" => emit(big_stack(move || checks::run_decl_level("c08", &tier, seed))),
+        "c09" => emit(big_stack(move || checks::run_c09(&tier, seed))),
+        "c19" => emit(big_stack(move || checks::run_c19(&tier, seed))),
+        "det-case" => {
+            if rest.len() < 3 {
+                eprintln!("usage: vxn det-case <c04|c05|c06|c07|c08|c09|c19> <detector> @src:<text>|@file:<path>");
+                return Some(2);
+            }
+            let (prop, det, src) = (rest[0].clone(), rest[1].clone(), crate::arg_or_file(&rest[2]));
+            let (ok, msg) = big_stack(move || replay(&prop, &det, &src));
+            println!("{}", msg);
+            Some(if ok { 0 } else { 1 })
+        }
+        // debugging aids (not used by vx)
+        "det-dump" => {
+            let src = crate::arg_or_file(&rest[0]);
+            match solang_parser::parse(&src, 0) {
+                Ok((su, _)) => println!("{:#?}", su),
+                Err(e) => println!("ERR {:?}", e),
+            }
             Some(0)
         }
-        "c05" => {
-            println!("{}", todo("c05").to_json().render());
-            Some(0)
-        }
-        "c06" => {
-            println!("{}", todo("c06").to_json().render());
-            Some(0)
-        }
-        "c07" => {
-            println!("{}", todo("c07").to_json().render());
-            Some(0)
-        }
-        "c08" => {
-            println!("{}", todo("c08").to_json().render());
-            Some(0)
-        }
-        "c09" => {
-            println!("{}", todo("c09").to_json().render());
-            Some(0)
-        }
-        "c19" => {
-            println!("{}", todo("c19").to_json().render());
+        "det-corpus" => {
+            // det-corpus <prop> : print the tags (and optionally sources) of the corpus
+            let prop = rest.get(0).cloned().unwrap_or_else(|| "c05".into());
+            let full = rest.get(1).map(|s| s == "full").unwrap_or(false);
+            let mut rng = crate::report::Rng::new(seed);
+            for c in corpus::corpus_for(&prop, &tier, &mut rng) {
+                println!("{} [{}] {} @{}", c.focus.map(|d| d.name()).unwrap_or("-"), c.kind.name(), c.class, c.pos);
+                if full {
+                    println!("{}\n----", c.src);
+                }
+            }
             Some(0)
         }
         _ => None,
     }
-}
-
-#[allow(dead_code)]
-fn todo(name: &str) -> CheckResult {
-    let mut r = CheckResult::new(name);
-    r.violate("harness:not-implemented", "check not implemented yet", vec![name.to_string()], String::new(), String::new());
-    r
 }
